@@ -8,12 +8,31 @@ A_ENGINE = [
     "mitigated by canary + CPython cross-check + seeded mutants",
 ]
 
+A_SSE = A_ENGINE + [
+    "A1: os.urandom / random.* return fresh values (ghost RNG tape)",
+    "A2 (ideal primitive, Dolev-Yao style): HMAC-PRF outputs of >= 8 bytes determine (key, message) -- the formal reading of "
+    "'except with negligible probability'; strictly inconsistent with a finite codomain, no obligation uses cardinality",
+    "A6: PRF / hash output lengths (proved in C16, restated because the PRF is opaque at scheme level)",
+    "X1-X3: cryptography's PKCS7 and AES-CBC (see C14); Dec(k, Enc(k, m)) == m is proved from them",
+    "B3: list.sort(key=label) on pairs with pairwise distinct labels is a permutation in strictly ascending label order",
+    "B4: dict preserves insertion order; keys of a dict are pairwise distinct (positions dkpos)",
+    "P1: pickle.loads(pickle.dumps(x)) == x",
+    "schemes not yet under contract for this property are covered only by the bounded stand-in (real code, real crypto, boundary grid)",
+]
+
 PROPS = {
     "C17": dict(modules=["toolkit_bytes"], assumptions=A_ENGINE + [
         "B1: int.to_bytes / int.from_bytes (big endian) are the functions i2b / b2i; OverflowError iff x<0 or x>=256**w",
         "B2: bytes.fromhex / bytes.hex / str.encode / bytes.decode are abstract (uninterpreted) mutually inverse maps",
     ], bounded=[]),
     "C18": dict(modules=["bits"], assumptions=A_ENGINE, bounded=[]),
+    "C01": dict(modules=["pibas", "sse_bounded"], assumptions=A_SSE, bounded=[], runtime_checks=[["sse_bounded", "rt_c01_c02"]]),
+    "C02": dict(modules=["pibas", "sse_bounded"], assumptions=A_SSE, bounded=[], runtime_checks=[["sse_bounded", "rt_c01_c02"]]),
+    "C03": dict(modules=["pibas", "sse_bounded"], assumptions=A_SSE, bounded=[], runtime_checks=[["sse_bounded", "rt_c03"]]),
+    "C05": dict(modules=["pibas", "sse_bounded"], assumptions=A_SSE, bounded=[], runtime_checks=[["sse_bounded", "rt_c05"]]),
+    "C06": dict(modules=["pibas", "sse_bounded"], assumptions=A_SSE, bounded=[], runtime_checks=[["sse_bounded", "rt_c06"]]),
+    "C07": dict(modules=["pibas", "sse_bounded"], assumptions=A_SSE, bounded=[], runtime_checks=[["sse_bounded", "rt_c07"]]),
+    "C08": dict(modules=["pibas", "sse_bounded"], assumptions=A_SSE, bounded=[], runtime_checks=[["sse_bounded", "rt_c08"]]),
     "C14": dict(modules=["crypto"], assumptions=A_ENGINE + [
         "X1: cryptography's PKCS7 padder/unpadder: update()+finalize() == pkcs7(m) / unpad7(d), invalid padding raises ValueError",
         "X2: cryptography's AES-CBC: encryptor/decryptor are mutually inverse, length preserving on whole blocks; AES(key) accepts 16/24/32-byte keys; CBC IV has 16 bytes",
